@@ -183,6 +183,10 @@ class OfficeLANAdder(NetworkNodeAdder, discriminator="office-lan"):
             network.add_node(router)
             router.configure_port(port=1, ip_address=default_gateway, subnet_mask="255.255.255.0")
             router.enable_port(1)
+            if num_of_switches > 1:
+                network.connect(
+                    router.network_interface[1], core_switch.network_interface[24], bandwidth=config.bandwidth
+                )
 
         # Initialise the first edge switch and connect to the router or core switch
         switch_port = 0
